@@ -16,6 +16,7 @@ mod c05;
 mod c06;
 mod c07;
 mod c08;
+mod c08c;
 mod c09;
 mod replicas;
 mod c10;
@@ -45,7 +46,7 @@ fn parts_for(id: &str) -> Option<(&'static str, Vec<Box<dyn DynPart>>, Vec<Strin
         "C05" => ("C05", c05::parts(), none),
         "C06" => ("C06", c06::parts(), none),
         "C07" => ("C07", c07::parts(), none),
-        "C08" => ("C08", c08::parts(), none),
+        "C08" => ("C08", { let mut p = c08::parts(); p.extend(c08c::parts()); p }, none),
         "C09" => ("C09", c09::parts(), none),
         "C10" => ("C10", c10::parts(), none),
         "C11" => ("C11", c11::parts(), none),
